@@ -25,6 +25,6 @@ for c in $checks; do
   out=$(TRUSIM_REPO=$WT TRUSIM_CACHE=$CA TRUSIM_OUT=$OUT/$id ./check "$c" $extra 2>/dev/null)
   code=$?
   echo "=== $id vs $c: exit $code"
-  echo "$out" | grep -E "^VIOLATION|^  class:|^  scenario:|^KNOWN|^$c:" | head -40
+  echo "$out" | grep -a -E "^VIOLATION|^  class:|^  scenario:|^$c:" | head -40
 done
 git -C $WT checkout -q -- .
